@@ -105,7 +105,6 @@ def run_machine(ck, tier, wd, exe, exe_asan):
         raise vlib.InfraError("c01-probe failed: " + err[-500:])
     ck.cov["value_sweep_settings"] = json.loads(out.strip().splitlines()[-1])["settings"]
     passes.append(([], "2", 0, 1, 0))
-    traces = []
     for pi, (vers, modes, maxboost, stride, offset) in enumerate(passes):
         cfg = os.path.join(wd, "mc%d.cfg" % pi)
         open(cfg, "w").write("SPECIFICATION Spec\nCONSTANTS Versions = {%s}\n Modes = {%s}\n NBoost = %d\n Stride = %d\n Offset = %d\n UseDiscr = %s\n"
@@ -127,10 +126,9 @@ def run_machine(ck, tier, wd, exe, exe_asan):
         summ["crashes_confirmed_under_asan"] = nconf
         ck.cov.setdefault("synth", []).append(summ)
         ck.cov["evaluations"] += summ["cases"]
-        traces.append(trace)
         os.remove(cfgs)
-    ck.cov["block_types"] = ntypes
-    return traces
+        ck.cov["block_types"] = ntypes
+        yield trace          # (judged by the caller before the next pass runs)
 
 
 def run(tier):
